@@ -1,0 +1,30 @@
+//go:build verif
+
+// Contracts for the gowp verifier (/verif). Comment-only; compiled only with -tags verif.
+package cmds
+
+// ---------------------------------------------------------------------------------------------
+// C18 — key slots follow the Redis Cluster hash-slot specification (slot.go).
+// Reference CRC: CRC16/XMODEM, MSB first, polynomial 0x1021, initial value 0, written bit by bit.
+
+//@ specfn crcbit(c uint16) uint16 = ite((c & 0x8000) != 0, (c << 1) ^ 0x1021, c << 1)
+//@ specfn opaque crcbyte(c uint16, b byte) uint16 = crcbit(crcbit(crcbit(crcbit(crcbit(crcbit(crcbit(crcbit(c ^ (uint16(b) << 8)))))))))
+//@ specfn rec crcstr(s string, n int) uint16 = ite(n <= 0, 0, crcbyte(crcstr(s, n - 1), s[n - 1]))
+
+//@ func crc16
+//@   mode bv
+//@   uses-global crc16tab
+//@   safety C18
+//@   ensures [C18 crc-is-xmodem] crc == crcstr(key, len(key))
+//@   loop 0: invariant [C18 table-step-is-eight-bit-steps] forall c uint16, b byte :: {crcbyte(c, b)} (c << 8) ^ crc16tab[uint8(c >> 8) ^ b] == crcbyte(c, b)
+//@   loop 0: invariant [C18 crc-of-prefix] 0 <= i && i <= len(key) && crc == crcstr(key, i)
+
+//@ func slot
+//@   safety C18
+//@   ensures [C18 no-open-brace] (forall k int :: 0 <= k && k < len(key) ==> key[k] != '{') ==> result == crcstr(key, len(key)) & 16383
+//@   ensures [C18 hashtag] forall s, e int :: (0 <= s && s < e && e < len(key) && key[s] == '{' && key[e] == '}' && e != s + 1 && (forall k int :: 0 <= k && k < s ==> key[k] != '{') && (forall k int :: s < k && k < e ==> key[k] != '}')) ==> result == crcstr(key[s+1:e], len(key[s+1:e])) & 16383
+//@   ensures [C18 empty-tag] forall s int :: (0 <= s && s + 1 < len(key) && key[s] == '{' && key[s+1] == '}' && (forall k int :: 0 <= k && k < s ==> key[k] != '{')) ==> result == crcstr(key, len(key)) & 16383
+//@   ensures [C18 no-close-brace] forall s int :: (0 <= s && s < len(key) && key[s] == '{' && (forall k int :: 0 <= k && k < s ==> key[k] != '{') && (forall k int :: s < k && k < len(key) ==> key[k] != '}')) ==> result == crcstr(key, len(key)) & 16383
+//@   ensures [C18 in-range] 0 <= result && result < 16384
+//@   loop 0: invariant [C18] 0 <= s && s <= len(key) && (forall k int :: 0 <= k && k < s ==> key[k] != '{')
+//@   loop 1: invariant [C18] s + 1 <= e && e <= len(key) && (forall k int :: s < k && k < e ==> key[k] != '}')
